@@ -84,9 +84,10 @@ Print Assumptions C13_checker_accepts_model.
    (identifiers [A-Za-z_][A-Za-z0-9_]*, not of the Rust hash form, total length <= INT_MAX) the
    demangler (with the fuel the model uses, 8*len+64) returns the qualified name
      scope::...::last[::last | ::~last | ::operator<op>]   without parameter list.
-   Not covered by the round-trip theorems: substitutions, template arguments other than builtin
-   types, local names, special names, Rust `$` escapes, non-builtin parameter types (those are
-   differential-tested only). *)
+   Not covered by the round-trip theorems: the std abbreviations (St, Sa, Ss ...) and substitutions as
+   prefix of the function's own name, expression / pack / negative-literal template arguments, function,
+   array, pointer-to-member, decltype and vendor types, ABI tags, local names, special names, Rust `$`
+   escapes (those are differential-tested only). *)
 Theorem C13_roundtrip_subset_partial : forall d, decl_okb d = true -> demangle (mangle d) = Str (simple_name d).
 Proof. exact roundtrip_simple_name. Qed.
 Print Assumptions C13_roundtrip_subset_partial.
@@ -132,6 +133,46 @@ Theorem C13_roundtrip_examples4 :
   qdecl_okb (str "r") td_take = false.
 Proof. exact roundtrip_examples4. Qed.
 Print Assumptions C13_roundtrip_examples4.
+
+(* general parameter types: qualifiers, class names, nested names and substitutions with ANY base-36
+   <seq-id> (any number of substitution candidates):
+     _Z N [V][K][R|O] (<source-name> [I <builtin>+ E])+ [C<n> | D<n> | <operator>] E <type>*
+     <type> ::= (r|V|K|P|R|O|C|G)* (<builtin> | S <seq-id> _ | <source-name> | N (<source-name> | S <seq-id> _)* E)
+   demangles to the qualified name *)
+Theorem C13_roundtrip_typed_partial : forall quals d tys, ydecl_okb quals d tys = true ->
+  demangle (ymangle quals d tys) = Str (simple_name (erase d)).
+Proof. exact roundtrip_typed. Qed.
+Print Assumptions C13_roundtrip_typed_partial.
+
+Theorem C13_roundtrip_examples5 :
+  ydecl_okb (str "KR") td_put ty_ex = true /\
+  ymangle (str "KR") td_put ty_ex = str "_ZNKR5store3Buf3putEPKcRNS_3BufEPS0_SG_KS10_5Other" /\
+  simple_name (erase td_put) = str "store::Buf::put".
+Proof. exact roundtrip_examples5. Qed.
+Print Assumptions C13_roundtrip_examples5.
+
+(* the general formal mangler: a mutually recursive grammar (Roundtrip.v: TyL / TA / TAL / NI, Comps, PTys)
+     _Z N [V][K][R|O] (<source-name> [<targs>])+ [C<n> | D<n> | <operator>] E <type>*
+     <targs> ::= I (<type> | L <builtin> <number> E)* E
+     <type>  ::= (r|V|K|P|R|O|C|G)* ( <builtin> | S <seq-id> _ [<targs>] | <source-name> [<targs>]
+                                    | N (<source-name> [<targs>] | S <seq-id> _ [<targs>])* E )
+   to any nesting depth: class and function templates over user types, parameters of template class types,
+   nested names, substitutions.  Every such name demangles to the qualified name without parameter and
+   template-argument lists. *)
+Theorem C13_roundtrip_general_partial : forall quals n id ids enc l m ptxt,
+  forallb qual_okb quals = true -> Comps n (id :: ids) enc -> last_okb l = true -> PTys m ptxt ->
+  Z.of_nat (List.length (gmangle quals enc l ptxt)) <= INT_MAX ->
+  demangle (gmangle quals enc l ptxt) = Str (gname (id :: ids) l).
+Proof. exact roundtrip_general. Qed.
+Print Assumptions C13_roundtrip_general_partial.
+
+Theorem C13_roundtrip_examples6 :
+  exists n m enc ptxt,
+    Comps n [str "app"; str "Vec"; str "push"] enc /\ PTys m ptxt /\
+    gmangle [] enc LPlain ptxt = str "_ZN3app3VecINS_3RecENS_5AllocIS0_EEE4pushERKS0_PNS_3VecIiLi3EEE" /\
+    gname [str "app"; str "Vec"; str "push"] LPlain = str "app::Vec::push".
+Proof. exact roundtrip_examples6. Qed.
+Print Assumptions C13_roundtrip_examples6.
 
 (* Rust legacy scheme: _ZN <source-name>+ 17h<16 hex digits> E demangles to the path without the hash *)
 Theorem C13_roundtrip_rust_legacy_partial : forall a cs h, rust_okb a cs h = true ->
